@@ -307,7 +307,9 @@ def build():
               lambda: mm.ClassifierAfterKMeans(estimator=LogisticRegression(C=2.0),
                                                clus=KMeans(n_clusters=2, n_init=1, random_state=0)),
               lambda: mm.ClassifierAfterKMeans(estimator=__import__("sklearn.svm", fromlist=["SVC"]).SVC(
-                  probability=True, random_state=0), clus=KMeans(n_clusters=3, n_init=1, random_state=1))],
+                  probability=True, random_state=0), clus=KMeans(n_clusters=3, n_init=1, random_state=1)),
+              # a clusterer that draws from the global generator and is sensitive to what it draws
+              lambda: mm.ClassifierAfterKMeans(clus=KMeans(n_clusters=3, n_init=1, init="random", max_iter=2))],
              clf_data, clf3, methods=["predict", "predict_proba", "decision_function"],
              rowwise=["predict", "predict_proba", "decision_function"],
              alts={"clus": [lambda: __import__("sklearn.cluster", fromlist=["Birch"]).Birch(n_clusters=2),
